@@ -64,6 +64,9 @@ func TestC02(t *testing.T) {
 		"a process exit and by a power loss; NotifySyncCompleted must be preceded by a successful device Sync since NotifySyncStarting; a case is " +
 		"non-trivial when >= 2 uploads were acknowledged and it has >= 12 steps")
 
+	if name, script := run.ReplayScript(); script != nil && psx.ReplayRoundTrip(run, name, script) {
+		return
+	}
 	if name, script := run.ReplayScript(); script != nil {
 		r := psx.Replay(run, model, name, script)
 		if r != nil {
@@ -79,7 +82,14 @@ func TestC02(t *testing.T) {
 		return
 	}
 	for name, script := range run.CorpusScripts() {
+		if psx.ReplayRoundTrip(run, "corpus/"+name, script) {
+			continue
+		}
 		psx.Replay(run, model, "corpus/"+name, script)
+	}
+	// the state a restart reads is the state that was written, whatever its size (see psx.StateRoundTrip)
+	for i, k := 0, run.Scale(30, 300); i < k && run.Findings() < 10; i++ {
+		psx.RandomRoundTrip(run, fmt.Sprintf("seed%d/roundtrip%d", run.Seed, i), hx.NewRand(run.Seed, "C02-roundtrip", i))
 	}
 	n := run.Scale(60, 600)
 	for i := 0; i < n && run.Findings() < 10; i++ {
